@@ -6,6 +6,8 @@ MMCount.tla: for every class-count vector / size ranges / geo-ratio tolerance TL
 the real count_max_designs() must equal TLC's number and the real generator listing must consist of exactly that many
 distinct pairs, each of them legal and size-admissible.
 """
+import dataclasses
+
 import numpy as np
 
 from harness import par as par_mod
@@ -61,6 +63,15 @@ def replay_case(case):
     par = tbrmmdesignparameters.TBRMMDesignParameters(**kw)
     data = tbrmmdata.TBRMMData(panel(n), 'response', geoeligibility.GeoEligibility(pd.DataFrame(erows)))
     mm = tbrmatchedmarkets.TBRMatchedMarkets(data, par)
+    edits = (n + len(erows) + case['count']) % 2 == 0
+    if edits:
+      # the caller has read the assignments first and edited the sets it was handed (groups yielded by a running
+      # generator are NOT edited: a generator may legitimately yield a set it keeps using)
+      ga = mm.geo_assignments
+      for f in dataclasses.fields(ga):
+        v = getattr(ga, f.name)
+        if isinstance(v, set):
+          v.clear()
     count = mm.count_max_designs()
     sizes = list(mm.treatment_group_size_range())
     listing = []
